@@ -406,6 +406,11 @@ impl<'tcx> Dumper<'tcx> {
             if let Some(tr) = tcx.trait_of_assoc(did) {
                 o = o.s("trait_default_of", &self.path(tr));
             }
+        } else if matches!(kind, DefKind::AssocConst { .. } | DefKind::Const { .. }) {
+            o = o.s("name", tcx.item_name(did).as_str());
+            if let Some(imp) = tcx.impl_of_assoc(did) {
+                o = o.raw("impl", self.impl_brief(imp)).s("impl_path", &self.path(imp));
+            }
         } else {
             // closure: record the enclosing fn
             let parent = tcx.typeck_root_def_id(did);
@@ -624,7 +629,7 @@ fn dump<'tcx>(tcx: TyCtxt<'tcx>, out_path: &str) {
     let mut n_skipped = 0usize;
     for def in tcx.hir_body_owners() {
         let kind = tcx.def_kind(def);
-        if !matches!(kind, DefKind::Fn | DefKind::AssocFn | DefKind::Closure) {
+        if !matches!(kind, DefKind::Fn | DefKind::AssocFn | DefKind::Closure | DefKind::AssocConst { .. } | DefKind::Const { .. }) {
             n_skipped += 1;
             continue;
         }
